@@ -32,7 +32,7 @@ PROBE_FLOORS = {"history_replay_with_latency": 100, "latent_last_before_first_st
 
 PROFILE = {
     "n_min": 2, "n_max": 10, "n_long": 30, "p_long": 0.08, "c_min": 1, "c_max": 3, "p_bar": 0.8, "extras_max": 12,
-    "p_sparse_grid": 0.2, "p_folds": 0.5, "p_markov": 0.25, "p_warmup": 0.35, "delays": [0, 0, 1],
+    "p_sparse_grid": 0.2, "p_folds": 0.5, "p_markov": 0.25, "p_warmup": 0.35, "delays": [0, 0, 1], "p_custom_frame": 0.2,
     "contract_kinds": ["ETF", "ETF", "spot", "margined"],
 }
 
@@ -259,6 +259,8 @@ def check_episode(env_spec, d, ep, sim, violate, probe):
             violate("books_after_reset", "after reset the book of {} is {} but the latest replayed quote is {}:{}".format(sym, got, bid, ask), kind="stale_quote")
             return
     # probes
+    if any(es.get("via_frame") for es in env_spec["events"]):
+        probe("custom_events_loaded_from_table")
     if lat_us > 0 and len(hist) > len(d.bucket[steps[0]]):
         probe("history_replay_with_latency")
     if lat_us > 0 and fold is not None and steps[0] != d.timesteps_with_events[0]:
